@@ -875,7 +875,8 @@ impl Stdfs {
     /// ```
     pub fn is_exec<T: AsRef<Path>>(path: T) -> bool {
         match Stdfs::abs(path) {
-            Ok(x) => match fs::metadata(x) {
+            // Look at the path itself, like `mode` does, not at what a link points to
+            Ok(x) => match fs::symlink_metadata(x) {
                 Ok(y) => y.permissions().mode() & 0o111 != 0,
                 Err(_) => false,
             },
@@ -951,7 +952,8 @@ impl Stdfs {
     /// ```
     pub fn is_readonly<T: AsRef<Path>>(path: T) -> bool {
         match Stdfs::abs(path) {
-            Ok(x) => match fs::metadata(x) {
+            // Look at the path itself, like `mode` does, not at what a link points to
+            Ok(x) => match fs::symlink_metadata(x) {
                 Ok(y) => y.permissions().readonly(),
                 Err(_) => false,
             },
